@@ -185,3 +185,70 @@ def empty_command():
     except Exception as e:
         return "other:" + type(e).__name__
     return "empty-command-accepted"
+
+
+# ------------------------------------------------------------------ the context-manager wrappers around the client
+class _TG2(TG):
+    async def __aenter__(self):
+        return self
+
+    def start_soon(self, fn, *a):
+        pass
+
+
+def wrapper(which, body, exit_on_term, exit_on_kill, tg_mode, outer_cancel):
+    """stdio_client(...) / stdio_client_with_initialize(...) as `async with`: body leaves normally (0), raises KeyError (1),
+    raises an error whose text mentions 'cancel scope' (2), or is cancelled (3); the child is alive at exit"""
+    ENV.reset([])
+    W.outer_cancelled, W.shield_depth = False, 0
+    procs = []
+
+    async def open_process(argv, **kw):
+        p = Proc(False, exit_on_term, exit_on_kill, False)
+        procs.append(p)
+        return p
+
+    saved = (STDIO.anyio.open_process, STDIO.anyio.create_task_group)
+    STDIO.anyio.open_process = open_process
+    STDIO.anyio.create_task_group = lambda: _TG2(tg_mode)
+    try:
+        params = SPARAMS.StdioParameters(command="srv", args=[])
+        cm = STDIO.stdio_client(params)
+        drive(cm.__aenter__())
+        exc = None
+        if body == 1:
+            exc = KeyError("body failed")
+        elif body == 2:
+            exc = RuntimeError("Attempted to exit cancel scope in a different task")
+        elif body == 3:
+            exc = asyncio.CancelledError()
+        W.outer_cancelled = bool(outer_cancel) or body == 3
+        raised, suppressed = None, None
+        try:
+            if exc is None:
+                drive(cm.__aexit__(None, None, None))
+            else:
+                # a falsy return value means "not suppressed": the `async with` statement re-raises the body's exception
+                suppressed = bool(drive(cm.__aexit__(type(exc), exc, None)))
+        except HarnessError:
+            raise
+        except BaseException as e:  # noqa
+            raised = e
+    finally:
+        STDIO.anyio.open_process, STDIO.anyio.create_task_group = saved
+    if len(procs) != 1:
+        return "not-exactly-one-process"
+    p = procs[0]
+    if ENV.tick > 2 * TICKS_PER_SEC:
+        return "shutdown-took-longer-than-two-grace-periods"
+    if "terminate" not in p.log:
+        return "live-child-was-never-terminated"
+    if not exit_on_term and "kill" not in p.log:
+        return "child-that-ignored-terminate-was-not-killed"
+    if exit_on_term and "kill" in p.log:
+        return "cooperative-child-was-killed"
+    if body == 1 and not (suppressed is False or isinstance(raised, KeyError)):
+        return "body-exception-swallowed-or-replaced"
+    if body == 0 and not W.outer_cancelled and raised is not None and not (tg_mode in (2, 4) and isinstance(raised, BaseException)):
+        return "normal-exit-raised:" + type(raised).__name__
+    return "ok"
